@@ -123,7 +123,8 @@ def _write_ninja():
     out = []
     out.append(f"cxxflags = {CXXFLAGS}")
     out.append(f"ldflags = {LDFLAGS}")
-    out.append("rule cxx\n  command = ccache g++ $cxxflags $flags -MD -MF $out.d -c $in -o $out\n  depfile = $out.d\n  deps = gcc\n  description = CXX $out")
+    # CCACHE_NODIRECT: direct mode does not see __has_include (s4u_core.hpp includes the s4u_ext_*.hpp that exist)
+    out.append("rule cxx\n  command = CCACHE_NODIRECT=1 ccache g++ $cxxflags $flags -MD -MF $out.d -c $in -o $out\n  depfile = $out.d\n  deps = gcc\n  description = CXX $out")
     out.append("rule cc\n  command = ccache gcc -O1 -g1 -D" + GUARD + f" {INC} $flags -MD -MF $out.d -c $in -o $out\n  depfile = $out.d\n  deps = gcc\n  description = CC $out")
     out.append("rule link\n  command = g++ $in -o $out $ldflags $libs\n  description = LINK $out")
     out.append("rule linkc\n  command = gcc $in -o $out $libs\n  description = LINK $out")
@@ -131,6 +132,10 @@ def _write_ninja():
     out.append(f"rule smpicc\n  command = {SG}/smpi_script/bin/smpicc -O1 -g1 -D{GUARD} $flags $in -o $out $libs && touch $out\n  description = SMPICC $out")
     out.append("rule fuzz\n  command = clang++ -std=gnu++17 -g -O1 -fsanitize=fuzzer,address,undefined -fno-sanitize-recover=undefined $flags $in -o $out $libs\n  description = FUZZ $out")
     lib = f"{SG}/lib/libsimgrid.so"
+    import glob as _glob
+    # every header of /verif/drivers is an implicit input of every driver object: a NEW extension header (found through
+    # __has_include, hence absent from the depfile) must trigger a rebuild too
+    hdrs_all = " ".join(sorted(_glob.glob(os.path.join(VERIF, "drivers", "*.hpp")) + _glob.glob(os.path.join(VERIF, "drivers", "*.h"))))
     for name, d in sorted(DRIVERS.items()):
         srcs = [s if s.startswith("/") else os.path.join(VERIF, "drivers", s) for s in d["src"]]
         exe = os.path.join(DRV, name)
@@ -139,7 +144,7 @@ def _write_ninja():
             for s in srcs:
                 o = os.path.join(DRV, name + "." + os.path.basename(s) + ".o")
                 rule = "cc" if s.endswith(".c") else "cxx"
-                out.append(f"build {o}: {rule} {s}\n  flags = {d['flags']}")
+                out.append(f"build {o}: {rule} {s} | {hdrs_all}\n  flags = {d['flags']}")
                 objs.append(o)
             lrule = "link" if d["kind"] == "cxx" else "linkc"
             out.append(f"build {exe}: {lrule} {' '.join(objs)} | {lib}\n  libs = {d['libs']}")
